@@ -137,7 +137,7 @@ def rule_r1(rep, program: Program, et: ExcTypes):
 
 
 def rule_r1b(rep, program: Program):
-    r = rep.rule("R1b", "zero-step trajectories are rejected by constructors and setters (n_step <= 0, lower <= 0)", floor=4)
+    r = rep.rule("R1b", "zero-step trajectories are rejected by constructors and setters (n_step <= 0, lower <= 0)", floor=7)
     sites = [("MetropolisStaticIntegrationTransition", "__init__", "n_step <= 0"), ("MetropolisRandomIntegrationTransition", "__init__", None), ("StaticMetropolisHMC", "n_step", "value <= 0"), ("RandomMetropolisHMC", "n_step_range", None)]
     for cls, name, _ in sites:
         k = program.cls(cls)
@@ -149,6 +149,42 @@ def rule_r1b(rep, program: Program):
         r.inst({"site": f"{cls}.{name}", "guards": guards})
         if not ok:
             r.violate(PROP, f"{cls}.{name}:no-positive-guard", "a non-positive number of integrator steps is not rejected: with zero steps the 'proposal' is the start state itself and the direction is flipped twice on it", node=f.node, file=f.file)
+    # the trajectory length handed to the shared Metropolis step does not depend on the state:
+    # reversibility of the proposal needs the same length from the proposed state back
+    for cls in ("MetropolisStaticIntegrationTransition", "MetropolisRandomIntegrationTransition"):
+        k = program.cls(cls)
+        f = k.methods.get("sample")
+        if f is None:
+            raise AnalysisError(f"{cls}.sample not found")
+        sp = f.params[1]
+        calls = [c for c in ast.walk(f.node) if isinstance(c, ast.Call) and norm(c.func) == "self._sample_n_step"]
+        if len(calls) != 1 or len(calls[0].args) < 2:
+            raise AnalysisError(f"{cls}.sample: expected one self._sample_n_step(state, n_step, rng) call")
+        arg = calls[0].args[1]
+        defs = {}
+        for n in ast.walk(f.node):
+            if isinstance(n, ast.Assign) and len(n.targets) == 1 and isinstance(n.targets[0], ast.Name):
+                defs.setdefault(n.targets[0].id, []).append(n.value)
+        seen_names, todo, reads_state, exprs = set(), [arg], False, []
+        while todo:
+            e = todo.pop()
+            exprs.append(norm(e))
+            for x in ast.walk(e):
+                if isinstance(x, ast.Name):
+                    if x.id == sp:
+                        reads_state = True
+                    elif x.id in defs and x.id not in seen_names:
+                        seen_names.add(x.id)
+                        todo.extend(defs[x.id])
+        conditional = any(isinstance(n, (ast.If, ast.IfExp, ast.While)) and sp in {y.id for y in ast.walk(n.test) if isinstance(y, ast.Name)} for n in ast.walk(f.node))
+        r.inst({"site": f"{cls}.sample", "length": exprs[-1] if exprs else None, "reads state": reads_state or conditional})
+        if reads_state or conditional:
+            r.violate(PROP, f"{cls}.sample:length-depends-on-state", f"the number of integrator steps ({exprs[-1]}) depends on the current state: the reverse move from the proposal would use a different length, so the Metropolis ratio exp(-dH) no longer makes the transition reversible", node=calls[0], file=f.file)
+        if cls == "MetropolisRandomIntegrationTransition":
+            draws = [c for c in ast.walk(f.node) if isinstance(c, ast.Call) and isinstance(c.func, ast.Attribute) and norm(c.func.value) == f.params[2]]
+            r.inst({"site": f"{cls}.sample", "draw": [norm(d) for d in draws]})
+            if not draws or not any(d.func.attr in ("integers", "randint", "choice") for d in draws):
+                r.violate(PROP, f"{cls}.sample:length-not-drawn", "the trajectory length is not drawn from the transition's generator", node=f.node, file=f.file)
     return r
 
 
